@@ -43,9 +43,9 @@ def decode_lines(b):
         i += 1
         port = None
         if portf == 1:
-            v = int.from_bytes(b[i + 1:i + 5], "big")
+            v = int.from_bytes(b[i + 1:i + 9], "big")
             port = -v if b[i] == 1 else v
-            i += 5
+            i += 9
         out.append(("json", ipf, ip, port))
     return out
 
